@@ -67,8 +67,16 @@ Proof.
   intros H. unfold pm_restart. destruct (do_live inst ev_sgn_restart (RDefault now)); cbn; auto.
 Qed.
 
-Lemma l_pm_prop m req ha hb i4 op :
-  hrel (m_round m) ha hb -> rrel (m_round m) (pm_prop m req ha i4 op) (pm_prop m req hb i4 op).
+Lemma l_put_opt put r ha hb op : hrel r ha hb -> hrel r (put_opt put ha op) (put_opt put hb op).
+Proof.
+  intros H. unfold put_opt. destruct put; [|exact H]. destruct op as [o|]; [|exact H].
+  unfold put_operation. destruct H as (H1 & H2 & H3 & H4 & H5).
+  destruct (existsb _ (ops_visible (h_st ha))); destruct (existsb _ (ops_visible (h_st hb)));
+    unfold hrel, lagree, emit; cbn; auto.
+Qed.
+
+Lemma l_pm_prop put m req ha hb i4 op :
+  hrel (m_round m) ha hb -> rrel (m_round m) (pm_prop put m req ha i4 op) (pm_prop put m req hb i4 op).
 Proof.
   intros H. unfold pm_prop. destruct (String.eqb (m_event m) ev_sgn_start).
   - destruct (m_tasks m) as [tasks|]; [|exact H].
@@ -80,12 +88,12 @@ Proof.
       - apply l_emit_src. exact H. }
     destruct (save_signatures (emit ha _) _) as [ha' ua|ha'|]; destruct (save_signatures (emit hb _) _) as [hb' ub|hb'|];
       cbn in Hs |- *; try contradiction; auto.
-    destruct Hs as [Hs _]. split; [apply l_save_fsm; exact Hs|reflexivity].
-  - cbn. split; [apply l_save_fsm; exact H|reflexivity].
+    destruct Hs as [Hs _]. split; [apply l_save_fsm; apply l_put_opt; exact Hs|reflexivity].
+  - cbn. split; [apply l_save_fsm; apply l_put_opt; exact H|reflexivity].
 Qed.
 
-Lemma l_pm_tail now m req ha hb inst :
-  hrel (m_round m) ha hb -> rrel (m_round m) (pm_tail now m req ha inst) (pm_tail now m req hb inst).
+Lemma l_pm_tail put now m req ha hb inst :
+  hrel (m_round m) ha hb -> rrel (m_round m) (pm_tail put now m req ha inst) (pm_tail put now m req hb inst).
 Proof.
   intros H. unfold pm_tail.
   destruct (negb (sender_is_participant _ _ _)); [exact H|].
@@ -113,9 +121,9 @@ Proof.
     destruct create; cbn; auto.
 Qed.
 
-Theorem process_message_local now a b m :
+Theorem process_message_local put now a b m :
   lagree (m_round m) a b ->
-  rrel (m_round m) (process_message now {| h_st := a; h_tr := [] |} m) (process_message now {| h_st := b; h_tr := [] |} m).
+  rrel (m_round m) (process_message put now {| h_st := a; h_tr := [] |} m) (process_message put now {| h_st := b; h_tr := [] |} m).
 Proof.
   intros H. unfold process_message.
   assert (H0 : hrel (m_round m) {| h_st := a; h_tr := [] |} {| h_st := b; h_tr := [] |}) by exact H.
@@ -142,7 +150,7 @@ Proof.
        else match (if has_suffix (i_dstate i) "_timeout" && has_prefix (i_dstate i) "state_signing_"
                    then match p_sgn (i_payload i) with Some _ => pm_restart now m ha i | None => RPanic end
                    else ROk ha i) with
-            | ROk h2 inst2 => match m_req m with MFsm req => pm_tail now m req h2 inst2 | _ => RErr h2 end
+            | ROk h2 inst2 => match m_req m with MFsm req => pm_tail put now m req h2 inst2 | _ => RErr h2 end
             | RErr h2 => RErr h2
             | RPanic => RPanic
             end)
@@ -151,7 +159,7 @@ Proof.
        else match (if has_suffix (i_dstate i) "_timeout" && has_prefix (i_dstate i) "state_signing_"
                    then match p_sgn (i_payload i) with Some _ => pm_restart now m hb i | None => RPanic end
                    else ROk hb i) with
-            | ROk h2 inst2 => match m_req m with MFsm req => pm_tail now m req h2 inst2 | _ => RErr h2 end
+            | ROk h2 inst2 => match m_req m with MFsm req => pm_tail put now m req h2 inst2 | _ => RErr h2 end
             | RErr h2 => RErr h2
             | RPanic => RPanic
             end)).
@@ -197,12 +205,18 @@ Proof. intros H. unfold save_signatures. destruct l; [exact H|]. cbn [res_keep].
 Lemma k_put_operation st start h o : gkeep st (h_st h) start -> res_keep st start (put_operation h o).
 Proof. intros H. unfold put_operation. destruct (existsb _ _); [exact H|]. cbn [res_keep]. apply k_emit; [exact I|exact H]. Qed.
 
+Lemma k_put_opt put st start h op : gkeep st (h_st h) start -> gkeep st (h_st (put_opt put h op)) start.
+Proof.
+  intros H. unfold put_opt. destruct put; [|exact H]. destruct op as [o|]; [|exact H].
+  pose proof (k_put_operation st start h o H) as Hp. destruct (put_operation h o); cbn [res_keep] in Hp; auto.
+Qed.
+
 Lemma k_pm_restart st start now m h inst : gkeep st (h_st h) start -> res_keep st start (pm_restart now m h inst).
 Proof. intros H. unfold pm_restart. destruct (do_live _ _ _); cbn [res_keep]; auto. Qed.
 
-Lemma k_pm_prop st m req h i4 op :
+Lemma k_pm_prop put st m req h i4 op :
   gkeep st (h_st h) (m_round m) ->
-  res_keep st (m_round m) (pm_prop m req h i4 op).
+  res_keep st (m_round m) (pm_prop put m req h i4 op).
 Proof.
   intros H. unfold pm_prop. destruct (String.eqb (m_event m) ev_sgn_start) eqn:E.
   - destruct (m_tasks m) as [tasks|]; [|exact H].
@@ -210,13 +224,13 @@ Proof.
     match goal with |- context [save_signatures ?hh ?l] =>
       pose proof (k_save_signatures st (m_round m) hh l) as Hs end.
     match type of Hs with ?P -> _ => assert (H1 : P); [apply k_emit; [reflexivity|exact H]|specialize (Hs H1)] end.
-    destruct (save_signatures _ _) as [h' u|h'|]; cbn [res_keep] in Hs |- *; auto; try (apply k_save_fsm; exact Hs).
-  - cbn [res_keep]. apply k_save_fsm. exact H.
+    destruct (save_signatures _ _) as [h' u|h'|]; cbn [res_keep] in Hs |- *; auto; try (apply k_save_fsm; apply k_put_opt; exact Hs).
+  - cbn [res_keep]. apply k_save_fsm. apply k_put_opt. exact H.
 Qed.
 
-Lemma k_pm_tail st now m req h inst :
+Lemma k_pm_tail put st now m req h inst :
   gkeep st (h_st h) (m_round m) ->
-  res_keep st (m_round m) (pm_tail now m req h inst).
+  res_keep st (m_round m) (pm_tail put now m req h inst).
 Proof.
   intros H. unfold pm_tail.
   destruct (negb (sender_is_participant _ _ _)); [exact H|].
@@ -231,8 +245,8 @@ Proof.
   - apply k_pm_prop. exact H.
 Qed.
 
-Theorem process_message_keeps now st m :
-  res_keep st (m_round m) (process_message now {| h_st := st; h_tr := [] |} m).
+Theorem process_message_keeps put now st m :
+  res_keep st (m_round m) (process_message put now {| h_st := st; h_tr := [] |} m).
 Proof.
   unfold process_message.
   assert (H0 : gkeep st (h_st {| h_st := st; h_tr := [] |}) (m_round m)) by (repeat split; reflexivity).
@@ -263,7 +277,7 @@ Proof.
        else match (if has_suffix (i_dstate i) "_timeout" && has_prefix (i_dstate i) "state_signing_"
                    then match p_sgn (i_payload i) with Some _ => pm_restart now m h i | None => RPanic end
                    else ROk h i) with
-            | ROk h2 inst2 => match m_req m with MFsm req => pm_tail now m req h2 inst2 | _ => RErr h2 end
+            | ROk h2 inst2 => match m_req m with MFsm req => pm_tail put now m req h2 inst2 | _ => RErr h2 end
             | RErr h2 => RErr h2
             | RPanic => RPanic
             end)).
@@ -311,17 +325,10 @@ Proof. unfold lagree. intros (H1 & H2 & H3 & H4 & H5). repeat split; congruence.
 Lemma step_msg_local r a b nm : m_round (snd nm) = r -> lagree r a b -> lagree r (step_msg a nm) (step_msg b nm).
 Proof.
   intros <- H. destruct nm as [now m]. unfold step_msg, node_step, process_board_message. cbn [fst snd].
-  pose proof (process_message_local now a b m H) as Hl.
-  destruct (process_message now {| h_st := a; h_tr := [] |} m) as [ha oa|ha|];
-    destruct (process_message now {| h_st := b; h_tr := [] |} m) as [hb ob|hb|]; cbn in Hl; try contradiction.
-  - destruct Hl as [Hl <-]. destruct oa as [o|]; [|exact Hl].
-    pose proof (put_operation_state (m_round m) ha o (h_st hb) Hl) as H1.
-    apply lagree_sym in H1.
-    pose proof (put_operation_state (m_round m) hb o _ H1) as H2. apply lagree_sym in H2.
-    assert (Hnp : forall h, put_operation h o <> RPanic).
-    { intros h. unfold put_operation. destruct (existsb _ _); discriminate. }
-    destruct (put_operation ha o) eqn:Ea; destruct (put_operation hb o) eqn:Eb; cbn in *;
-      try exact H2; exfalso; first [apply (Hnp ha); assumption|apply (Hnp hb); assumption].
+  pose proof (process_message_local true now a b m H) as Hl.
+  destruct (process_message true now {| h_st := a; h_tr := [] |} m) as [ha oa|ha|];
+    destruct (process_message true now {| h_st := b; h_tr := [] |} m) as [hb ob|hb|]; cbn in Hl; try contradiction.
+  - destruct Hl as [Hl _]. exact Hl.
   - exact Hl.
   - exact H.
 Qed.
@@ -330,9 +337,8 @@ Lemma board_message_keeps now st m :
   res_keep st (m_round m) (node_step now st (InMsg m)).
 Proof.
   unfold node_step, process_board_message.
-  pose proof (process_message_keeps now st m) as H.
-  destruct (process_message now {| h_st := st; h_tr := [] |} m) as [h [o|]|h|]; cbn [res_keep] in *; auto.
-  apply k_put_operation. exact H.
+  pose proof (process_message_keeps true now st m) as H.
+  destruct (process_message true now {| h_st := st; h_tr := [] |} m) as [h o|h|]; cbn [res_keep] in *; auto.
 Qed.
 
 (* a message of another round - any message, batch proposals included: nothing round r depends on
